@@ -99,6 +99,8 @@ def spec_of(pname, ty):
         return (None, None, '&mut ZR', 'ZR: ZeroCopyReader')
     if t == '&mut dyn FsCacheReqHandler':
         return (None, None, '&mut FsCacheReq', None)
+    if t == 'stat64':
+        return ('stat64', 'stat_no_ids(%s)' % pname, t, None)
     if t == 'IoctlData':
         return ('IoctlArg', 'ioctl_arg(%s)' % pname, 'IoctlData<\'_>', None)
     return (t, pname, t, None)
@@ -111,6 +113,8 @@ def gen_trait(root, notes):
     L.append('pub trait FileSystem {')
     L.append('    type Inode: From<u64> + Into<u64>;')
     L.append('    type Handle: From<u64> + Into<u64>;')
+    L.append('    spec fn touch_ok(&self) -> bool;                       // the object may be called at all now (name gates)')
+    L.append('    spec fn ids_ok(&self, uid: u32, gid: u32) -> bool;      // owner ids a setattr may carry')
     info = {}
     for m in ms:
         if m['name'] in OMIT:
@@ -143,7 +147,11 @@ def gen_trait(root, notes):
         if ret:
             sig += ' -> (res: %s)' % ret
         L.append(sig)
-        L.append('        requires self.allowed_%s(%s), // [cap]' % (name, ', '.join(sexprs)))
+        L.append('        requires self.touch_ok(), // [touch]')
+        L.append('            self.allowed_%s(%s), // [cap]' % (name, ', '.join(sexprs)))
+        for (n, t) in m['params']:
+            if t == 'stat64':
+                L.append('            self.ids_ok(%s.st_uid, %s.st_gid), // [ids]' % (n, n))
         ens = []
         if ret:
             if 'IoctlData' in ret:
@@ -169,7 +177,8 @@ def gen_trait(root, notes):
 def gen_impl(root, struct, inode_ty, handle_ty, notes, generics=''):
     """an opaque implementor (backend): all spec fns uninterpreted, all methods external_body"""
     ms = parse_methods(root)
-    L = ['impl%s FileSystem for %s {' % (generics, struct), '    type Inode = %s;' % inode_ty, '    type Handle = %s;' % handle_ty]
+    L = ['impl%s FileSystem for %s {' % (generics, struct), '    type Inode = %s;' % inode_ty, '    type Handle = %s;' % handle_ty,
+         '    uninterp spec fn touch_ok(&self) -> bool;', '    uninterp spec fn ids_ok(&self, uid: u32, gid: u32) -> bool;']
     for m in ms:
         if m['name'] in OMIT:
             continue
